@@ -349,7 +349,7 @@ func runC12(c *Ctx) {
 	// before the end, then a run that refines the gap above it - every tail
 	// after the echoed one is replaced in turn, so a mis-placed replacement
 	// (e.g. by a windowed or galloping search) ends up in the answer.
-	for i := 0; i < c.Pick(400, 6000); i++ {
+	for i := 0; i < c.Pick(400, 2000); i++ {
 		rng := c.Rng("c12-refine", i)
 		m := 20 + rng.Intn(60)
 		rev := rng.Intn(2) == 0
@@ -377,7 +377,7 @@ func runC12(c *Ctx) {
 		}
 		c.NewHist("refine-lis").Emit(c12lis(vs, rev))
 	}
-	n := c.Pick(800, 60000)
+	n := c.Pick(800, 16000) // the declarative optimum costs ~0.4 s per 150-element input in TLC
 	for i := 0; i < n; i++ {
 		rng := c.Rng("c12", i)
 		switch i % 4 {
